@@ -171,4 +171,31 @@ theorem foldl_two_blocks {α : Type} (m : Nat) (d : α) (g h : Nat → α) (body
     have : j - m < m := by omega
     simp [this]
 
+/-- two folds agree when their bodies agree on every state satisfying an invariant -/
+theorem foldl_congr_inv {σ : Type} (P : σ → Prop) (f g : σ → Nat → σ) (init : σ) (n : Nat) (h0 : P init)
+    (hstep : ∀ k st, k < n → P st → f st k = g st k ∧ P (f st k)) :
+    (List.range n).foldl f init = (List.range n).foldl g init ∧ P ((List.range n).foldl f init) := by
+  induction n with
+  | zero => exact ⟨rfl, by simpa using h0⟩
+  | succ n ih =>
+    obtain ⟨e, p⟩ := ih (fun k st hk hp => hstep k st (Nat.lt_succ_of_lt hk) hp)
+    rw [List.range_succ, List.foldl_append, List.foldl_append]
+    simp only [List.foldl_cons, List.foldl_nil]
+    obtain ⟨e2, p2⟩ := hstep n _ (Nat.lt_succ_self n) p
+    rw [← e]
+    exact ⟨e2, p2⟩
+
+/-- a loop that appends the selected entries -/
+theorem foldl_append_filter {α : Type} (n : Nat) (p : Nat → Prop) [DecidablePred p] (g : Nat → α) (init : List α) :
+    (List.range n).foldl (fun st k => if p k then st else st ++ [g k]) init
+      = init ++ (List.range n).filterMap (fun k => if p k then none else some (g k)) := by
+  induction n with
+  | zero => simp
+  | succ n ih =>
+    rw [List.range_succ, List.foldl_append, ih, List.filterMap_append]
+    simp only [List.foldl_cons, List.foldl_nil, List.filterMap_cons, List.filterMap_nil]
+    by_cases hp : p n
+    · simp [hp]
+    · simp [hp]
+
 end GoIpa.Loop
